@@ -793,9 +793,33 @@ func runC08(r *Run) {
 				keys = append(keys, mu.Key)
 			}
 		}
+		// the registration moved into a helper that is handed the key: the key is the argument at the call
+		for _, h := range helpersOf(f) {
+			for _, in := range instrsWhereOne(h, func(in ssa.Instruction) bool { _, ok := in.(*ssa.MapUpdate); return ok }) {
+				mu := in.(*ssa.MapUpdate)
+				kp, isParam := stripValue(mu.Key).(*ssa.Parameter)
+				if !isParam || !loadOfField(mu.Map, "mountFields.appList") {
+					continue
+				}
+				var calls []callSite
+				withoutHelpers(func() { calls = callsIn(f, false) })
+				for _, c := range calls {
+					if c.Common.StaticCallee() != h {
+						continue
+					}
+					for i, q := range h.Params {
+						if q == kp && i < len(c.Common.Args) {
+							keys = append(keys, c.Common.Args[i])
+						}
+					}
+				}
+			}
+		}
 		r.need(len(keys) >= 1, "appendSubAppLists registers sub-apps in mountFields.appList")
 		n := 0
-		for _, c := range callsIn(f, false) {
+		var ownCalls []callSite
+		withoutHelpers(func() { ownCalls = callsIn(f, false) })
+		for _, c := range ownCalls {
 			if c.Common.StaticCallee() != f {
 				continue
 			}
